@@ -27,6 +27,22 @@ P = {
          "string: unpack(pack v ++ trailing) = (v, size), size = |pack v|), C19_var (length-prefixed strings/bytes up to 255 bytes), C19_bit "
          "(bit i of the byte, occupies the byte only at i=7, index cycles) - all closed; implementation checked for the same relation on generated values "
          "including non-ASCII text.", "text<->bytes (UTF-8), inet_* formatting and double<->single conversion are CPython's."),
+ "C06": ("Theorems C06_reject (a request outside [min,max] raises, nothing is ever transmitted for that call, held triple untouched - also when "
+         "the request equals an out-of-range held value) and C06_transmitted (for every history of timer expiries and reports, every set request of "
+         "the call carries a value within the bounds held at the call) - closed; implementation checked on every description of every table with "
+         "int / displayed-float / float+-1e-7 / bool / 'on' / 'off' requests, the raw encoding of float requests computed by the PrimFloat model.",
+         "bounds are those held when set() is called; schedule parameters are exercised under C07/C18."),
+ "C08": ("Theorem C08_all_histories (closed): for every tracking oracle, triple, in-range request differing from the held value, retry count and "
+         "every finite history of timer expiries and controller reports, the outputs of the set-call model satisfy the monitor of the property "
+         "(requested value only, at most `retries` transmissions, one per expiry, refresh iff not tracking, True only after a differing report, False "
+         "only after `retries` unconfirmed transmissions) - by a simulation invariant; real Number/Switch objects run the same histories under the "
+         "virtual-time loop and are compared point by point.",
+         "partial for scheduling: the order in which a report and a timer expiring at the same instant are served is chosen by the harness (both orders generated)."),
+ "C17": ("Theorems C17_inverse / C17_accept: for every number description of the generated tables and every raw value below 256^size, the displayed "
+         "value exists and writing it back yields that raw value - complete kernel evaluation (vm_compute over PrimFloat, 65536 + 3x256 raw values of "
+         "the 4 distinct scalings, lifted by forallb_forall; the bound is in the statement). Depends on the kernel float/int63 primitives only. "
+         "Implementation compared bit-exactly (display, bounds, transmitted raw) on every description.",
+         "Python round()/int() semantics are modelled (exact Z arithmetic on mantissa/exponent + one IEEE division) and validated against CPython on every run."),
  "C14": ("Theorems C14_noise (documented outcomes, progress, bounded wait <= 1000 bytes after the delimiter, tiling, iteration ends with the "
          "broken-stream signal) and C14_resync_clean (closed); the full resynchronisation clause is refuted in Coq (C14_resync_refuted) and "
          "recorded as known finding D16; implementation checked for P14 and for the resync bound on every generated run.",
